@@ -780,3 +780,152 @@ Proof.
   { unfold impl_apply. rewrite EN. simpl. rewrite ER. simpl. rewrite EV. reflexivity. }
   eexists. split; [exact R|]. eapply apply_wf; eauto.
 Qed.
+
+(* ---- dimension tables are dictionaries: keys are not repeated; every operation maintains that -------------------- *)
+Lemma memb_map_filter {A} (g : A -> name) (p : A -> bool) k l :
+  memb k (map g (filter p l)) = true -> memb k (map g l) = true.
+Proof.
+  intros H. apply memb_In in H. apply memb_In. apply in_map_iff in H as [x [Hx Hin]].
+  apply filter_In in Hin as [Hin _]. apply in_map_iff. eauto.
+Qed.
+Lemma nodupb_map_filter {A} (g : A -> name) (p : A -> bool) l :
+  nodupb (map g l) = true -> nodupb (map g (filter p l)) = true.
+Proof.
+  induction l as [|x l IH]; simpl; intros H; [reflexivity|].
+  apply andb_true_iff in H as [H1 H2]. destruct (p x); simpl; [|auto].
+  rewrite IH by assumption. rewrite andb_true_r. apply negb_true_iff in H1. apply negb_true_iff.
+  destruct (memb (g x) (map g (filter p l))) eqn:E; [|reflexivity].
+  apply memb_map_filter in E. congruence.
+Qed.
+
+Lemma memb_keys_aset {V} k' k (v : V) l :
+  memb k' (map fst (aset k v l)) = memb k' (map fst l) || Nat.eqb k' k.
+Proof.
+  induction l as [|[a b] l IH]; simpl.
+  - rewrite orb_false_r. reflexivity.
+  - destruct (Nat.eqb k a) eqn:E; simpl.
+    + apply Nat.eqb_eq in E; subst. destruct (Nat.eqb k' a); simpl; [reflexivity|]. rewrite orb_false_r. reflexivity.
+    + rewrite IH. destruct (Nat.eqb k' a); reflexivity.
+Qed.
+Lemma nodupb_aset {V} k (v : V) l : nodupb (map fst l) = true -> nodupb (map fst (aset k v l)) = true.
+Proof.
+  induction l as [|[a b] l IH]; simpl; intros H; [reflexivity|].
+  apply andb_true_iff in H as [H1 H2]. destruct (Nat.eqb k a) eqn:E; simpl.
+  - apply Nat.eqb_eq in E; subst. rewrite H1, H2. reflexivity.
+  - rewrite IH by assumption. rewrite andb_true_r. rewrite memb_keys_aset. apply negb_true_iff in H1. rewrite H1. simpl.
+    rewrite Nat.eqb_sym, E. reflexivity.
+Qed.
+
+Lemma relen_keys g : forall T T1, relen T g = Ok T1 -> map fst T1 = map fst T.
+Proof.
+  unfold relen. induction T as [|[a [n u]] T IH]; simpl; intros T1 H.
+  - inv H. reflexivity.
+  - bindinv H. bindinv E. inv E. bindinv H. inv H. simpl. f_equal. apply IH. exact E.
+Qed.
+
+Lemma rd_del_nodup prs : forall T, keys_nodup T = true -> keys_nodup (rd_del T prs) = true.
+Proof.
+  induction prs as [|[o n] t IH]; simpl; intros T H; [exact H|].
+  apply IH. unfold keys_nodup, adel. apply nodupb_map_filter. exact H.
+Qed.
+Lemma rd_ins_nodup T0 prs : forall T T', rd_ins T0 T prs = Ok T' -> keys_nodup T = true -> keys_nodup T' = true.
+Proof.
+  induction prs as [|[o n] t IH]; simpl; intros T T' H K.
+  - inv H. exact K.
+  - destruct (lookup o T0) as [v|]; [|discriminate]. eapply IH; [exact H|]. unfold keys_nodup. apply nodupb_aset. exact K.
+Qed.
+
+(* the tagging pass of stack returns the dimension entries themselves *)
+Lemma mapM_tag {A} (F : A -> res (A * bool)) :
+  (forall p q, F p = Ok q -> fst q = p) -> forall l sh, mapM F l = Ok sh -> map fst sh = l.
+Proof.
+  intros HF. induction l as [|x l IH]; simpl; intros sh H.
+  - inv H. reflexivity.
+  - bindinv H. bindinv H. inv H. simpl. f_equal; [apply HF; exact E|apply IH; exact E0].
+Qed.
+Lemma stack_tag_fst (d : name) (tabs : list dimtab) (p : name * (nat * bool)) (q : name * (nat * bool) * bool) :
+  (if Nat.eqb (fst p) d then Ok (p, false) else
+   do ls <- mapM (fun T : dimtab => match lookup (fst p) T with Some (n, _) => Ok n | None => Raise end) tabs;
+   Ok (p, forallb (Nat.eqb (fst (snd p))) ls)) = Ok q -> fst q = p.
+Proof.
+  destruct (Nat.eqb (fst p) d); intros H; [inv H; reflexivity|]. bindinv H. inv H. reflexivity.
+Qed.
+
+Lemma nodup_lookup (T : dimtab) k v : keys_nodup T = true -> In (k, v) T -> lookup k T = Some v.
+Proof.
+  unfold keys_nodup. induction T as [|[a b] T IH]; simpl; intros H Hin; [contradiction|].
+  apply andb_true_iff in H as [H1 H2]. destruct Hin as [Heq|Hin].
+  - inv Heq. rewrite Nat.eqb_refl. reflexivity.
+  - destruct (Nat.eqb k a) eqn:E; [|apply IH; assumption].
+    apply Nat.eqb_eq in E; subst. apply negb_true_iff in H1. apply memb_false in H1.
+    exfalso. apply H1. apply in_map_iff. exists (a, v). auto.
+Qed.
+
+Lemma stack_dims f others d f' : impl_stack f others d = Ok f' ->
+  exists sh ls u n0, map fst sh = fdims f /\ lookup d (fdims f) = Some (n0, u)
+                     /\ fdims f' = aset d (sum ls, u) (map fst (filter (fun q => snd q) sh)).
+Proof.
+  unfold impl_stack. intros H. bindinv H.
+  match type of H with (if ?c then _ else _) = _ => destruct c; [discriminate|] end.
+  bindinv H. destruct (lookup d (fdims f)) as [[n0 u]|] eqn:Ed; [|discriminate]. bindinv H. inv H. simpl.
+  exists a, a0, u, n0. repeat split; auto.
+  eapply (mapM_tag _ (fun p q => stack_tag_fst d (map fdims (f :: others)) p q)). exact E.
+Qed.
+
+Lemma stack_unlim f others d f' :
+  keys_nodup (fdims f) = true -> impl_stack f others d = Ok f' -> unlim_keptb (fdims f) (fdims f') = true.
+Proof.
+  intros K H. destruct (stack_dims _ _ _ _ H) as (sh & ls & u & n0 & ES & Ed & ET). rewrite ET.
+  apply unlim_ext2. intros k n u0 Hk. rewrite lookup_aset. destruct (Nat.eqb k d) eqn:Ek.
+  - apply Nat.eqb_eq in Ek; subst. rewrite Ed in Hk. inv Hk. right. eauto.
+  - destruct (lookup k (map fst (filter (fun q => snd q) sh))) as [[n' u']|] eqn:El; [|left; reflexivity].
+    right. exists n'. apply lookup_In in El. apply in_map_iff in El as [q [Hq Hin]]. apply filter_In in Hin as [Hin _].
+    assert (In (k, (n', u')) (fdims f)) by (rewrite <- ES; apply in_map_iff; eauto).
+    rewrite (nodup_lookup _ _ _ K H0) in Hk. inv Hk. reflexivity.
+Qed.
+
+Theorem step_keys_nodup f o f' : keys_nodup (fdims f) = true -> step f o = Ok f' -> keys_nodup (fdims f') = true.
+Proof.
+  intros K H. destruct (keeps_table o) eqn:KT; [rewrite (keeps_table_dims _ _ _ KT H); exact K|].
+  destruct o; try discriminate KT; simpl in H.
+  - (* renameDimensions *)
+    unfold impl_rename_dim in H. bindinv H. bindinv H. destruct (rename_collides (fdims a) prs); [discriminate|]. inv H. simpl.
+    assert (Ea : fdims a = fdims f) by (unfold impl_copy in E; bindinv E; inv E; reflexivity). rewrite Ea in *.
+    eapply rd_ins_nodup; [exact E0|]. apply rd_del_nodup. exact K.
+  - (* insertDimension *)
+    unfold impl_insert in H. bindinv H. inv H. simpl. destruct (has dk (fdims f)); [exact K|]. apply nodupb_aset. exact K.
+  - (* removeSingleton *)
+    unfold impl_remove in H. bindinv H. inv H. simpl. unfold keys_nodup. apply nodupb_map_filter. exact K.
+  - (* sliceDimensions *)
+    unfold impl_slice in H. match type of H with (if ?c then _ else _) = _ => destruct c; [discriminate|] end.
+    bindinv H. bindinv H. bindinv H. inv H. simpl.
+    assert (K1 : keys_nodup a0 = true) by (unfold keys_nodup; rewrite (relen_keys _ _ _ E0); exact K).
+    match goal with |- context [if ?c then _ else _] => destruct c end; [apply nodupb_aset|]; exact K1.
+  - (* applyAlongDimensions *)
+    unfold impl_apply in H. bindinv H. bindinv H. bindinv H. inv H. simpl. unfold keys_nodup. rewrite (relen_keys _ _ _ E0). exact K.
+  - (* stack *)
+    destruct (stack_dims _ _ _ _ H) as (sh & ls & u & n0 & ES & Ed & ET). rewrite ET. apply nodupb_aset.
+    rewrite map_map. apply (nodupb_map_filter (fun q : name * (nat * bool) * bool => fst (fst q))).
+    rewrite <- map_map, ES. exact K.
+  - (* interpDimension *)
+    unfold impl_interp in H. destruct (lookup d (fvars f)) as [v|]; [|discriminate].
+    destruct (vshape v) as [|x [|y l]]; try discriminate.
+    unfold impl_apply in H. bindinv H. bindinv H. bindinv H. inv H. simpl. unfold keys_nodup. rewrite (relen_keys _ _ _ E0). exact K.
+Qed.
+
+(* the unlimited-flag clause for all 14 operations *)
+Theorem step_unlimited_all f o f' :
+  keys_nodup (fdims f) = true -> step f o = Ok f' ->
+  (match o with OSlice ss => slice_unl_ok f ss | _ => true end) = true ->
+  unlim_kept_op o (fdims f) (fdims f') = true.
+Proof.
+  intros K H S. destruct o; try (eapply step_unlimited; [exact H|]; first [reflexivity|exact S]).
+  simpl in H. unfold unlim_kept_op. eapply stack_unlim; eauto.
+Qed.
+
+Theorem run_keys_nodup ops : forall f f', keys_nodup (fdims f) = true -> run f ops = Ok f' -> keys_nodup (fdims f') = true.
+Proof.
+  induction ops as [|o t IH]; simpl; intros f f' K H.
+  - inv H. exact K.
+  - bindinv H. eapply IH; [|exact H]. eapply step_keys_nodup; eauto.
+Qed.
